@@ -4710,6 +4710,16 @@ class PyCdlib:
 
         child.inode.update_fp(fp, length)
 
+        if child.inode.boot_info_table is not None:
+            # This is an El Torito boot file that carries a Boot Info Table.
+            # The table holds the length and the checksum of the file, so it
+            # has to be made anew for the new contents.
+            bi_table = eltorito.EltoritoBootInfoTable()
+            with inode.InodeOpenData(child.inode, self.logical_block_size) as (data_fp, data_len):
+                bi_table.new(self.pvd, child.inode, length,
+                             self._calculate_eltorito_boot_info_table_csum(data_fp, data_len))
+            child.inode.add_boot_info_table(bi_table)
+
         # Remove the old size from the PVD size.
         for pvd in self.pvds:
             pvd.remove_from_space_size(child.get_data_length())
@@ -4754,6 +4764,13 @@ class PyCdlib:
             # holds the tail of the old contents, so really overwrite it with
             # zeros instead of just seeking over it.
             self._cdfp.write(b'\x00' * (-data_len % self.logical_block_size))
+
+        # If this file is being used as a bootfile, and a boot info table is
+        # present, patch the boot info table into offset 8, just like when
+        # writing a new ISO.
+        if child.inode.boot_info_table is not None and length > 0:
+            self._cdfp.seek(child.extent_location() * self.logical_block_size + 8)
+            self._cdfp.write(child.inode.boot_info_table.record())
 
         # Finally write out the directory record entry.
         # We can't use record.extents_to_here and record.offset_to_here to
